@@ -144,3 +144,16 @@ func VerifHarness_C17_Mluc() {
 	verifAssert(isAnyRecord, "mluc: description is not the string stored at any record's declared offset")
 	verifAssert(verifImplies(anyEn, isEnRecord), "mluc: an 'en' record exists but the description is not the string at an 'en' record's offset")
 }
+
+// VerifHarness_C17_NegControl: deliberately wrong claim (the description is the text
+// starting one byte later); must be reported as violated.
+func VerifHarness_C17_NegControl() {
+	text := verifBytes(3)
+	tag := append([]byte("desc\x00\x00\x00\x00"), 0, 0, 0, 4)
+	tag = append(tag, text...)
+	tag = append(tag, 0)
+	p := newProfile()
+	p.TagTable.add(DescSignature, tag)
+	s, _ := p.Description()
+	verifAssert(verifEqBytes([]byte(s), tag[13:16]), "negative control: description starts one byte late (wrong on purpose)")
+}
